@@ -18,12 +18,16 @@ use serde_json::{json, value::RawValue, Value};
 use crate::{opt_s, s, OpResult};
 
 fn dump_rule(r: AnyPushRuleRef<'_>) -> Value {
-    json!({
+    let mut v = json!({
         "id": r.rule_id(),
         "enabled": r.enabled(),
         "default": r.is_server_default(),
         "actions": serde_json::to_value(r.actions()).unwrap_or(Value::Null),
-    })
+    });
+    if let AnyPushRuleRef::Content(c) = r {
+        v["pattern"] = json!(c.pattern);
+    }
+    v
 }
 
 fn dump_ruleset(rs: &Ruleset) -> Value {
